@@ -4,7 +4,7 @@ import check as CK
 from props import coordcommon as CC
 
 TRANSLATORS = ["enums", "defender", "dispatch"]
-COQ_FILES = ["Props/C04.v", "Props/C04_goal.v", "Obl/DispatchOk.v", "Obl/EnumsOk.v"]
+COQ_FILES = ["Props/C04.v", "Props/C04_reason.v", "Props/C04_goal.v", "Obl/DispatchOk.v", "Obl/EnumsOk.v"]
 
 
 def correspondence(ctx):
